@@ -11,6 +11,7 @@ import Omaha.Drv.Uri
 import Omaha.Drv.SM
 import Omaha.Drv.Gen
 import Omaha.Drv.Mock
+import Omaha.Drv.Storage
 
 open Omaha Omaha.Drv
 
@@ -25,6 +26,7 @@ def handleLine (line : String) : String :=
   | "sm" :: rest => handleSM rest
   | "gen" :: rest => handleGen rest
   | "mock" :: rest => handleMock rest
+  | "storage" :: rest => handleStorage rest
   -- the real state machine against the in-process mock: units against the state-machine model, the
   -- exchanges against the mock model
   | "smmock" :: "sm" :: rest => handleSM rest
